@@ -693,7 +693,8 @@ class PoissonSeamEngine:
         "one run = one shared AtomGrid object (Gauss-Legendre/Chebyshev through BeckeRTransform, 60-70 radial nodes, degree 3-6, random centre and rotation "
         "seed), one shared options dict and a PRNG-chosen history of solve_poisson_bvp calls on rho1, rho2 and a*rho1+b*rho2 (each under its own simulator-chosen "
         "RNG draw behaviour), solve_poisson_ivp calls, solve_poisson_robust calls (fitted core model of H/C/N/O/Cl, core + smooth), RNG-history perturbations, "
-        "Coulomb-table restarts and store faults on its first load; non-trivial = the same density solved at least twice under different draws/histories, "
+        "Coulomb-table restarts and store faults on its first load; molecular runs = one shared 2-3 atom MolGrid (and a second one listing the atoms in the opposite order), "
+        "plain solves of rho1, rho2, a*rho1+b*rho2 and robust solves of the summed core models on it; non-trivial = the same density solved at least twice under different draws/histories, "
         "or a robust retry after a fault/restart; distinct = distinct run digests"
     )
     STATE_MEASURE = "set of (density, RNG draw behaviour) pairs for which radial solves actually started from a seam draw"
@@ -705,13 +706,16 @@ class PoissonSeamEngine:
     ASSUMPTIONS = [
         f"accuracy bound {ACC_BOUND} (test-suite level) inside the resolution envelope used (>=60 radial nodes, exponents 1-4, on-centre densities); measured <= 2e-4",
         f"spread between RNG draws <= max({SPREAD_BOUND}, {SPREAD_TOL_FACTOR}*tol) (measured ~1e-15 for s-type, 1e-3*tol with an l=1 component); linearity residual <= {LIN_FACTOR}*tol; exact-core identity <= {CORE_BOUND} (measured ~1e-16)",
-        "density / grid space is workload: sampled, not decided; off-centre and molecular densities are outside the sampled envelope (each costs 5-40 s per solve)",
+        "density / grid space is workload: sampled, not decided; off-centre densities on an atomic grid are outside the sampled envelope",
+        f"multi-centre molecular runs (2-3 atoms, own radial size / degree / rotation per atom, s-type Gaussians on the nuclei, remove_large_pts 50-100): accuracy bound {MOL_ACC_BOUND} "
+        f"(test-suite level 1e-2; measured <= 3.3e-3), spread between draws <= max({SPREAD_BOUND}, {MOL_SPREAD_TOL_FACTOR}*tol) (measured <= 0.04*tol); with the default cut-off of 1e6 these solves do not converge "
+        "(the library raises) and are not generated",
     ]
 
     def submodes(self, tier):
         if tier == "quick":
-            return [("atomic", 170), ("molecular", 16)]
-        return [("atomic", 12000), ("molecular", 1500)]
+            return [("molecular", 16), ("atomic", 170)]  # (the long molecular runs are started first)
+        return [("molecular", 1500), ("atomic", 12000)]
 
     def determinism_sample(self, tier):
         return 16 if tier == "quick" else 128
